@@ -1,0 +1,11 @@
+//go:build !verif
+
+// Package verifhook provides crash points for the verification harness. Without the
+// "verif" build tag every call is a no-op.
+package verifhook
+
+// Enabled reports whether crash points are compiled in.
+const Enabled = false
+
+// CrashPoint does nothing in regular builds.
+func CrashPoint(string) {}
